@@ -1,10 +1,10 @@
 package worlds
 
 import (
-	"os"
 	"bytes"
 	"compress/gzip"
 	"fmt"
+	"os"
 	"strings"
 	"time"
 
@@ -33,12 +33,12 @@ var c01HdrVals = []string{"v1", "two words", "a, b", "", "x=1; y=2", "\"quoted\"
 var c01RespHdr = []string{"X-Origin", "Set-Cookie", "ETag", "Cache-Control", "x-lower", "X-Dup", "Content-Type", "Vary", "Last-Modified", "Location"}
 
 type c01Ex struct {
-	id       int
-	req      *ReqSpec
-	resp     *RespSpec
-	gzipOK   bool      // origin compresses when asked with Accept-Encoding: gzip
-	sentResp *RespSpec // what the origin actually sent (after the gzip decision)
-	conn     int
+	id                int
+	req               *ReqSpec
+	resp              *RespSpec
+	gzipOK            bool      // origin compresses when asked with Accept-Encoding: gzip
+	sentResp          *RespSpec // what the origin actually sent (after the gzip decision)
+	conn              int
 	early, earlyFired bool // the origin answers after the head and reads no further
 }
 
